@@ -1,27 +1,42 @@
 import Xsm.Proofs.Actors
 /-!
-`Quiet s s'`: every actor that is `Dead` in `s` is still dead in `s'` and has received nothing in between.
-The relation is a preorder and every primitive of the model satisfies it, hence so do all operations
-(`Quiet s (step cmds s op)`), which is `nothing_delivered_after_stop`.
+`Quiet s s'`: every actor whose status is `stopped` in `s` — from the very moment `stop()` has set the
+status, whatever is still in its queue and whether or not its run loop has ended — is still stopped in
+`s'`, has processed nothing in between, and a run loop that has ended stays ended.
+The relation is a preorder and every primitive of the model satisfies it (also the ones in the MIDDLE of a
+macrostep: `stopA`, `drainAll`, `runAction`), hence so do all operations (`Quiet s (step cmds s op)`), which
+is `nothing_delivered_after_stop`.
 -/
 namespace XSM.Actors
 
+/-- what `Quiet` promises about one actor -/
+def Frozen (a a' : Actor) : Prop :=
+  a'.status = .stopped ∧ a'.received = a.received ∧ (a.alive = false → a'.alive = false)
+
 def Quiet (s s' : Sys) : Prop :=
   s'.flavor = s.flavor ∧ s.actors.length ≤ s'.actors.length ∧
-  ∀ u, Dead s u → Dead s' u ∧ (s'.get u).received = (s.get u).received
+  ∀ u, (s.get u).status = .stopped → Frozen (s.get u) (s'.get u)
 
-theorem Quiet.refl (s : Sys) : Quiet s s := ⟨rfl, Nat.le_refl _, fun _ h => ⟨h, rfl⟩⟩
+theorem Frozen.of_eq {a a' : Actor} (h : a.status = .stopped) (e : a' = a) : Frozen a a' := by
+  subst e; exact ⟨h, rfl, id⟩
+
+theorem Quiet.refl (s : Sys) : Quiet s s := ⟨rfl, Nat.le_refl _, fun _ h => Frozen.of_eq h rfl⟩
 
 theorem Quiet.trans {a b c : Sys} (h1 : Quiet a b) (h2 : Quiet b c) : Quiet a c := by
   refine ⟨h2.1.trans h1.1, Nat.le_trans h1.2.1 h2.2.1, fun u hu => ?_⟩
-  have ⟨d1, r1⟩ := h1.2.2 u hu
-  have ⟨d2, r2⟩ := h2.2.2 u d1
-  exact ⟨d2, r2.trans r1⟩
+  have ⟨d1, r1, a1⟩ := h1.2.2 u hu
+  have ⟨d2, r2, a2⟩ := h2.2.2 u d1
+  exact ⟨d2, r2.trans r1, fun h => a2 (a1 h)⟩
+
+/-- a completely stopped actor stays completely stopped and receives nothing -/
+theorem Quiet.dead {s s' : Sys} (q : Quiet s s') {u : Nat} (h : Dead s u) :
+    Dead s' u ∧ (s'.get u).received = (s.get u).received := by
+  have ⟨d1, r1, a1⟩ := q.2.2 u h.1
+  exact ⟨⟨d1, fun hf => a1 (h.2 (q.1 ▸ hf))⟩, r1⟩
 
 theorem quiet_of_actors_eq {s s' : Sys} (hf : s'.flavor = s.flavor) (ha : s'.actors = s.actors) : Quiet s s' := by
   refine ⟨hf, by simp [ha], fun u hu => ?_⟩
-  have hg : s'.get u = s.get u := get_congr ha u
-  exact ⟨⟨by rw [hg]; exact hu.1, by rw [hg, hf]; exact hu.2⟩, by rw [hg]⟩
+  exact Frozen.of_eq hu (get_congr ha u)
 
 /-- an update that keeps `received`, keeps `stopped` stopped and keeps a finished loop finished -/
 def Keeps (f : Actor → Actor) : Prop :=
@@ -32,40 +47,44 @@ theorem quiet_upd_keeps (s : Sys) (u : Nat) {f : Actor → Actor} (hf : Keeps f)
   by_cases hc : v = u ∧ u < s.actors.length
   · have hvu : v = u := hc.1
     subst hvu
-    have ⟨k1, k2, k3⟩ := hf (s.get v) hv.1
+    have ⟨k1, k2, k3⟩ := hf (s.get v) hv
     have hg : (s.upd v f).get v = f (s.get v) := get_upd_self s f hc.2
-    refine ⟨⟨?_, ?_⟩, ?_⟩
-    · rw [hg]; exact k2
-    · intro ha; rw [hg]; exact k3 (hv.2 ha)
-    · rw [hg]; exact k1
+    rw [hg]; exact ⟨k2, k1, k3⟩
   · have hg : (s.upd u f).get v = s.get v := by rw [get_upd]; simp only [hc, if_false]
-    exact ⟨⟨by rw [hg]; exact hv.1, by intro ha; rw [hg]; exact hv.2 ha⟩, by rw [hg]⟩
+    exact Frozen.of_eq hv hg
 
 /-- any update of an actor that is not stopped -/
 theorem quiet_upd_live (s : Sys) (u : Nat) (f : Actor → Actor) (h : (s.get u).status ≠ .stopped) : Quiet s (s.upd u f) := by
   refine ⟨rfl, by simp [n_upd], fun v hv => ?_⟩
   have hne : v ≠ u := by
-    intro e; subst e; exact h hv.1
-  have hg : (s.upd u f).get v = s.get v := get_upd_ne s f hne
-  exact ⟨⟨by rw [hg]; exact hv.1, by intro ha; rw [hg]; exact hv.2 ha⟩, by rw [hg]⟩
+    intro e; subst e; exact h hv
+  exact Frozen.of_eq hv (get_upd_ne s f hne)
 
 theorem quiet_addActor (s : Sys) (c : Actor) (fr : Nat) : Quiet s (addActor s c fr) := by
   refine ⟨rfl, by simp [addActor], fun v hv => ?_⟩
   by_cases hlt : v < s.actors.length
   · have hg : (addActor s c fr).get v = s.get v := by
       simp [addActor, Sys.get, List.getElem?_append_left hlt]
-    exact ⟨⟨by rw [hg]; exact hv.1, by intro ha; rw [hg]; exact hv.2 ha⟩, by rw [hg]⟩
+    exact Frozen.of_eq hv hg
   · have : s.get v = default := get_oob s hlt
-    have h1 := hv.1
-    rw [this] at h1
-    exact absurd h1 (by decide)
+    rw [this] at hv
+    exact absurd hv (by decide)
 
-theorem quiet_drainAll (busy : Option Nat) (s : Sys) (h : s.flavor = .async) : Quiet s (drainAll busy s) := by
+/-- F50: the hand-over point. A stopped actor whose loop is woken discards the event: nothing is processed -/
+theorem frozen_drainActor (busy : Option Nat) (u : Nat) (a : Actor) (h : a.status = .stopped) :
+    Frozen a (drainActor busy u a) := by
+  unfold drainActor
+  split
+  · exact Frozen.of_eq h rfl
+  · have hnr : ¬ a.status = .running := by rw [h]; decide
+    simp only [hnr, if_false]
+    split
+    · exact Frozen.of_eq h rfl
+    · exact ⟨h, rfl, fun _ => rfl⟩
+
+theorem quiet_drainAll (busy : Option Nat) (s : Sys) : Quiet s (drainAll busy s) := by
   refine ⟨rfl, by simp [n_drainAll], fun v hv => ?_⟩
-  have hal : (s.get v).alive = false := hv.2 h
-  have hg : (drainAll busy s).get v = s.get v := by
-    rw [get_drainAll]; simp [drainActor, hal]
-  exact ⟨⟨by rw [hg]; exact hv.1, by intro _; rw [hg]; exact hal⟩, by rw [hg]⟩
+  rw [get_drainAll]; exact frozen_drainActor busy v _ hv
 
 theorem quiet_map (s : Sys) (g : Actor → Actor) (hg : ∀ a, a.status = .stopped → g a = a) :
     Quiet s { s with actors := s.actors.map g } := by
@@ -76,12 +95,12 @@ theorem quiet_map (s : Sys) (g : Actor → Actor) (hg : ∀ a, a.status = .stopp
     cases h : s.actors[v]? with
     | none =>
       have : s.get v = default := by simp [Sys.get, h]
-      have h1 := hv.1; rw [this] at h1; exact absurd h1 (by decide)
+      rw [this] at hv; exact absurd hv (by decide)
     | some a =>
       have : s.get v = a := by simp [Sys.get, h]
       simp only [Option.map_some, Option.getD_some]
-      exact hg a (this ▸ hv.1)
-  exact ⟨⟨by rw [hgv]; exact hv.1, by intro ha; rw [hgv]; exact hv.2 ha⟩, by rw [hgv]⟩
+      exact hg a (this ▸ hv)
+  exact Frozen.of_eq hv hgv
 
 theorem quiet_foldl {β : Type} (F : Sys → β → Sys) (hF : ∀ s x, Quiet s (F s x)) (l : List β) (s : Sys) :
     Quiet s (l.foldl F s) := by
@@ -137,13 +156,6 @@ theorem quiet_spawnCore (s : Sys) (p : Nat) (key : String) (eid sid : Option Str
     Quiet s (spawnCore s p key eid sid b) :=
   ((quiet_addActor s _ _).trans (quiet_register _ sid _)).trans (quiet_linkChild _ p _ key _)
 
-theorem quiet_spawn (s : Sys) (p : Nat) (key : String) (eid sid : Option String) (b : Bool) :
-    Quiet s (spawn s p key eid sid b) := by
-  unfold spawn
-  split
-  · exact (quiet_spawnCore s p key eid sid _).trans (quiet_addWatch _ _)
-  · exact quiet_spawnCore s p key eid sid _
-
 theorem quiet_spawnInvokeAsync (s : Sys) (p : Nat) (key : String) : Quiet s (spawnInvokeAsync s p key) := by
   unfold spawnInvokeAsync
   refine Quiet.trans ?_ (quiet_addWatch _ _)
@@ -154,17 +166,17 @@ theorem quiet_killTimer (s : Sys) (i : Nat) : Quiet s (killTimer s i) := quiet_o
 
 theorem quiet_killTasks (s : Sys) (x : Nat) : Quiet s (killTasks s x) := quiet_of_actors_eq rfl rfl
 
-theorem quiet_stopTasks (busy : Option Nat) (s : Sys) (x : Nat) (h : s.flavor = .async) : Quiet s (stopTasks busy s x) := by
+theorem quiet_stopTasks (busy : Option Nat) (s : Sys) (x : Nat) : Quiet s (stopTasks busy s x) := by
   unfold stopTasks
   split
-  · exact (quiet_killTasks s x).trans (quiet_drainAll busy _ h)
+  · exact (quiet_killTasks s x).trans (quiet_drainAll busy _)
   · exact Quiet.refl s
 
-theorem quiet_stopLoop (busy : Option Nat) (s : Sys) (x : Nat) (h : s.flavor = .async) : Quiet s (stopLoop busy s x) := by
+theorem quiet_stopLoop (busy : Option Nat) (s : Sys) (x : Nat) : Quiet s (stopLoop busy s x) := by
   unfold stopLoop
   split
   · exact (quiet_upd_keeps s x (f := fun a => { a with alive := false }) (fun _ h => ⟨rfl, h, fun _ => rfl⟩)).trans
-      (quiet_drainAll busy _ h)
+      (quiet_drainAll busy _)
   · exact Quiet.refl s
 
 theorem quiet_stopTail (busy : Option Nat) (s : Sys) (x : Nat) : Quiet s (stopTail busy s x) := by
@@ -173,15 +185,15 @@ theorem quiet_stopTail (busy : Option Nat) (s : Sys) (x : Nat) : Quiet s (stopTa
   | sync =>
     exact (quiet_upd_keeps s x (f := fun a => { a with sends := [] }) (keeps_trivial (fun _ => rfl) (fun _ => rfl) (fun _ => rfl))).trans
       (quiet_killTasks _ x)
-  | async =>
-    have h1 := quiet_stopTasks busy s x hfl
-    exact h1.trans (quiet_stopLoop busy _ x (h1.1.trans hfl))
+  | async => exact (quiet_stopTasks busy s x).trans (quiet_stopLoop busy _ x)
 
 theorem quiet_markStopped (s : Sys) (x : Nat) (h : (s.get x).status = .running) : Quiet s (markStopped s x) :=
   quiet_upd_live s x _ (by rw [h]; decide)
 
 theorem quiet_clearKids (s : Sys) (x : Nat) : Quiet s (clearKids s x) :=
   quiet_upd_keeps s x (keeps_trivial (fun _ => rfl) (fun _ => rfl) (fun _ => rfl))
+
+theorem quiet_unregister (s : Sys) (x : Nat) : Quiet s (unregister s x) := quiet_of_actors_eq rfl rfl
 
 theorem quiet_stopA (busy : Option Nat) (fuel : Nat) (s : Sys) (x : Nat) : Quiet s (stopA busy fuel s x) := by
   induction fuel generalizing s x with
@@ -190,21 +202,39 @@ theorem quiet_stopA (busy : Option Nat) (fuel : Nat) (s : Sys) (x : Nat) : Quiet
     unfold stopA
     by_cases hr : (s.get x).status = .running
     · simp only [hr, if_true]
-      have h1 := quiet_markStopped s x hr
+      have h1 := (quiet_markStopped s x hr).trans (quiet_unregister _ x)
       have h2 := quiet_foldl (fun acc (kv : String × Nat) => stopA busy fuel acc kv.2) (fun acc kv => ih acc kv.2)
-        (s.get x).kids (markStopped s x)
+        (s.get x).kids (unregister (markStopped s x) x)
       exact ((h1.trans h2).trans (quiet_clearKids _ x)).trans (quiet_stopTail busy _ x)
     · simp only [hr, if_false]; exact Quiet.refl s
 
 theorem quiet_stop (busy : Option Nat) (s : Sys) (x : Nat) : Quiet s (stop busy s x) := quiet_stopA busy _ s x
+
+theorem quiet_popKid (s : Sys) (p : Nat) (cid : String) : Quiet s (popKid s p cid) :=
+  quiet_upd_keeps s p (keeps_trivial (fun _ => rfl) (fun _ => rfl) (fun _ => rfl))
+
+theorem quiet_evict (busy : Option Nat) (s : Sys) (p : Nat) (cid : String) : Quiet s (evict busy s p cid) := by
+  unfold evict
+  split
+  · exact (quiet_popKid s p cid).trans (quiet_stop busy _ _)
+  · exact Quiet.refl s
+
+theorem quiet_spawnFresh (s : Sys) (p : Nat) (key : String) (eid sid : Option String) (b : Bool) :
+    Quiet s (spawnFresh s p key eid sid b) := by
+  unfold spawnFresh
+  split
+  · exact (quiet_spawnCore s p key eid sid _).trans (quiet_addWatch _ _)
+  · exact quiet_spawnCore s p key eid sid _
+
+theorem quiet_spawn (busy : Option Nat) (s : Sys) (p : Nat) (key : String) (eid sid : Option String) (b : Bool) :
+    Quiet s (spawn busy s p key eid sid b) :=
+  (quiet_evict busy s p _).trans (quiet_spawnFresh _ p key eid sid b)
 
 theorem quiet_unlinkChild (s : Sys) (p x : Nat) : Quiet s (unlinkChild s p x) := by
   unfold unlinkChild
   split
   · exact quiet_upd_keeps s p (keeps_trivial (fun _ => rfl) (fun _ => rfl) (fun _ => rfl))
   · exact Quiet.refl s
-
-theorem quiet_unregister (s : Sys) (x : Nat) : Quiet s (unregister s x) := quiet_of_actors_eq rfl rfl
 
 theorem quiet_markOos (s : Sys) (b : Bool) : Quiet s (markOos s b) := by
   unfold markOos
@@ -245,7 +275,7 @@ theorem quiet_cancelSend (s : Sys) (p : Nat) (k : String) : Quiet s (cancelSend 
 theorem quiet_runAction (busy : Option Nat) (cur : String) (p : Nat) (s : Sys) (a : Action) :
     Quiet s (runAction busy cur p s a) := by
   cases a with
-  | spawn key eid sid b => exact quiet_spawn s p key eid sid b
+  | spawn key eid sid b => exact quiet_spawn busy s p key eid sid b
   | sendTo target ev delay sid =>
     simp only [runAction]
     split
@@ -287,7 +317,7 @@ theorem quiet_settle (s : Sys) : Quiet s (settle s) := by
     intro a ha
     have : ¬ a.status = .uninit := by rw [ha]; decide
     simp [this]
-  · next hfl => exact quiet_drainAll none s hfl
+  · exact quiet_drainAll none s
 
 theorem quiet_syncFinish (s : Sys) (p : Nat) : Quiet s (syncFinish s p) := by
   unfold syncFinish
@@ -325,7 +355,7 @@ theorem quiet_invokeBody (p : Nat) (s : Sys) : Quiet s (invokeBody p s) := by
   · split
     · exact quiet_setInv s p true
     · split
-      · exact (quiet_setInv s p true).trans (quiet_spawn _ p _ _ _ _)
+      · exact (quiet_setInv s p true).trans (quiet_spawn none _ p _ _ _ _)
       · exact (quiet_setInv s p true).trans (quiet_spawnInvokeAsync _ p _)
 
 theorem quiet_goInv (s : Sys) (p : Nat) : Quiet s (goInv s p) :=
@@ -333,14 +363,11 @@ theorem quiet_goInv (s : Sys) (p : Nat) : Quiet s (goInv s p) :=
 
 theorem quiet_killWatch (s : Sys) (i : Nat) : Quiet s (killWatch s i) := quiet_of_actors_eq rfl rfl
 
-theorem quiet_popKid (s : Sys) (p : Nat) (cid : String) : Quiet s (popKid s p cid) :=
-  quiet_upd_keeps s p (keeps_trivial (fun _ => rfl) (fun _ => rfl) (fun _ => rfl))
-
-theorem quiet_leaveWatch (busy : Option Nat) (p : Nat) (s : Sys) (h : s.flavor = .async) (iw : Nat × Watch) :
+theorem quiet_leaveWatch (busy : Option Nat) (p : Nat) (s : Sys) (iw : Nat × Watch) :
     Quiet s (leaveWatch busy p s iw) := by
   unfold leaveWatch
   split
-  · exact (((quiet_killWatch s _).trans (quiet_drainAll busy _ h)).trans (quiet_stop busy _ _)).trans (quiet_popKid _ p _)
+  · exact (((quiet_killWatch s _).trans (quiet_drainAll busy _)).trans (quiet_stop busy _ _)).trans (quiet_popKid _ p _)
   · exact Quiet.refl s
 
 theorem quiet_foldl_inv {β : Type} (F : Sys → β → Sys) (P : Sys → Prop) (hP : ∀ s x, P s → P (F s x))
@@ -354,13 +381,7 @@ theorem quiet_leaveBody (busy : Option Nat) (p : Nat) (s : Sys) : Quiet s (leave
   split
   · split
     · exact quiet_setInv s p false
-    · next hfl =>
-      refine (quiet_setInv s p false).trans ?_
-      apply quiet_foldl_inv (leaveWatch busy p) (fun t => t.flavor = .async)
-      · intro t x ht
-        exact ((quiet_leaveWatch busy p t ht x).1).trans ht
-      · intro t x ht; exact quiet_leaveWatch busy p t ht x
-      · exact hfl
+    · exact (quiet_setInv s p false).trans (quiet_foldl (leaveWatch busy p) (fun t x => quiet_leaveWatch busy p t x) _ _)
   · exact Quiet.refl s
 
 theorem quiet_leaveInv (s : Sys) (p : Nat) : Quiet s (leaveInv s p) :=
@@ -378,10 +399,16 @@ theorem quiet_notifyDone (s : Sys) (w : Watch) : Quiet s (notifyDone s w) := by
   · exact quiet_deliverNow s _ _
   · exact Quiet.refl s
 
+theorem quiet_popOwnKid (s : Sys) (w : Watch) : Quiet s (popOwnKid s w) := by
+  unfold popOwnKid
+  split
+  · exact quiet_popKid s _ _
+  · exact Quiet.refl s
+
 theorem quiet_runWatch (s : Sys) (iw : Nat × Watch) : Quiet s (runWatch s iw) := by
   unfold runWatch
   split
-  · exact ((quiet_killWatch s _).trans (quiet_notifyDone _ _)).trans (quiet_popKid _ _ _)
+  · exact ((quiet_killWatch s _).trans (quiet_notifyDone _ _)).trans (quiet_popOwnKid _ _)
   · exact Quiet.refl s
 
 theorem quiet_advance (s : Sys) (dt : Nat) : Quiet s (advance s dt) := by
